@@ -2206,3 +2206,86 @@ func c14CloseOnce(c *Ctx, pkgs []*packages.Package) {
 		c.Fail(rule, "anchor", token.NoPos, "no Close method marking a writer closed found")
 	}
 }
+
+// ruleErrOverwrittenInLoop (R-ERRLOOP; C15): `for … { err = f() }` followed by `if err != nil` reports only the last
+// iteration's error: a failed flush of any earlier output is dropped and the command exits 0 with files missing. On
+// SSA the pattern is exact: an error-typed call result whose only use is as the back-edge operand of a φ at the loop
+// head, where that φ is not consulted anywhere inside the loop (no test, no errors.Join/append with the previous
+// value). Scanned module-wide; zero instances are expected and the self-test keeps a positive example.
+func ruleErrOverwrittenInLoop(c *Ctx, rule string, pkgs []*packages.Package) {
+	c.Rule(rule, "an error assigned in a loop is tested or accumulated before the next iteration overwrites it", 0)
+	p := c.P
+	n, fns := 0, 0
+	for _, sf := range p.SSAFuncsOf(pkgs) {
+		for _, f := range allSSAFuncs(sf) {
+			fns++
+			for _, s := range errOverwrittenInLoop(f) {
+				n++
+				c.Ob(rule, fmt.Sprintf("%s/overwrite#%d", ssaFuncName(f), n), s.Pos(), false, true, "the error returned here is only carried to the next iteration, which overwrites it: failures of all but the last iteration are lost")
+			}
+		}
+	}
+	c.Ob(rule, "functions-scanned", token.NoPos, n == 0, fns > 0, "%d functions scanned, %d loop-overwritten errors", fns, n)
+}
+
+func errOverwrittenInLoop(f *ssa.Function) []ssa.Instruction {
+	var out []ssa.Instruction
+	for _, b := range f.Blocks {
+		for _, ins := range b.Instrs {
+			switch ins.(type) {
+			case *ssa.Call, *ssa.Extract:
+			default:
+				continue
+			}
+			v, ok := ins.(ssa.Value)
+			if !ok || !isErrorType(v.Type()) {
+				continue
+			}
+			if ex, ok := ins.(*ssa.Extract); ok {
+				if _, isCall := ex.Tuple.(*ssa.Call); !isCall {
+					continue
+				}
+			}
+			refs := *v.Referrers()
+			var phis []*ssa.Phi
+			other := 0
+			for _, r := range refs {
+				if _, isDbg := r.(*ssa.DebugRef); isDbg {
+					continue
+				}
+				if ph, ok := r.(*ssa.Phi); ok {
+					phis = append(phis, ph)
+				} else {
+					other++
+				}
+			}
+			if other != 0 || len(phis) != 1 {
+				continue
+			}
+			ph := phis[0]
+			// the φ sits at the head of a loop that contains the assignment: the head reaches b and b reaches the head
+			if !(blockReaches(ph.Block(), b) && blockReaches(b, ph.Block())) {
+				continue
+			}
+			// is the previous value consulted inside the loop?
+			usedInLoop := false
+			for _, r := range *ph.Referrers() {
+				if _, isDbg := r.(*ssa.DebugRef); isDbg {
+					continue
+				}
+				rb := r.Block()
+				if rb != nil && blockReaches(rb, ph.Block()) && blockReaches(ph.Block(), rb) {
+					// a use on a path that returns to the loop head
+					if _, isPhi := r.(*ssa.Phi); isPhi && r.(*ssa.Phi) == ph {
+						continue
+					}
+					usedInLoop = true
+				}
+			}
+			if !usedInLoop {
+				out = append(out, ins)
+			}
+		}
+	}
+	return out
+}
